@@ -30,6 +30,38 @@ package scanner
 //@   assumed
 //@   modifies commonResultReceiver.result []*proto.KeyValue
 
+// ---- C13: partition borders ----
+
+// Borders handed over by the engine are assumed long enough to be decoded (>= 13 bytes: the
+// property quantifies over stored keys and well-formed internal keys; Decode indexes blindly).
+//@ func (*scanner).adjustPartitionsBorders(ps) (ret)
+//@   props C13
+//@   requires r != nil && r.coder != nil
+//@   requires [decodable-borders] forall(k, 0 <= k && k < len(ps), len(ps[k].End) >= 13)
+//@   modifies []storage.Partition
+//@   ensures [same-count] len(ret) == len(ps)
+//@   ensures [chained] forall(k, 1 <= k && k < len(ret), ret[k].Start == ret[k-1].End)
+//@   ensures [inner-borders-at-index-records] forall(k, 0 <= k && k < len(ret)-1, is_internal_key(ret[k].End) ==> key_rev(ret[k].End) == 0)
+//@   loop 0 invariant [range] 0 <= i && i <= len(ps) && len(ps) == old(len(ps)) && ps.obj == old(ps.obj) && ps.off == old(ps.off)
+//@   loop 0 invariant [chained] forall(k, 1 <= k && k < i, ps[k].Start == ps[k-1].End)
+//@   loop 0 invariant [adjusted] forall(k, 0 <= k && k < i && k < len(ps)-1, is_internal_key(ps[k].End) ==> key_rev(ps[k].End) == 0)
+//@   loop 0 invariant [decodable] forall(k, 0 <= k && k < len(ps), len(ps[k].End) >= 13)
+
+// ---- C13 / C03: result receivers ----
+
+//@ func (*streamResultReceiver).fork() (result)
+//@   props C13
+//@   ensures [same-stream-and-revision] typeis(result, "*scanner.streamResultReceiver") && asptr(result, "*scanner.streamResultReceiver").stream == e.stream && asptr(result, "*scanner.streamResultReceiver").readRev == e.readRev
+
+//@ func newStreamReceiver(readRev, stream) (result)
+//@   props C13
+//@   ensures [fields] result != nil && result.readRev == readRev && result.stream == stream && len(result.batch) == 0
+
+//@ func getListStreamEnd(revision, err) (response)
+//@   props C13
+//@   ensures [terminator] response != nil && response.RangeResponse != nil && !response.RangeResponse.More && response.RangeResponse.Header != nil && response.RangeResponse.Header.Revision == revision
+//@   ensures [carries-error] (err == nil) == (len(response.Err) == 0) || err != nil
+
 // ---- C08 ----
 
 //@ func (*scanner).checkCompactRace(ctx, revision, compact) (err)
